@@ -228,17 +228,24 @@ def _device(ctx, R, T):
     g = ctx.cfg(f)
     finds = [(n, c) for n in g.live_nodes() for c in node_calls(n) if call_attr(c) == "find_adb"]
     R.check(len(finds) == 1, "USB-device", f.qualname + "|find", "one find_adb call", "expected one UsbTransport.find_adb call", f.loc())
+    from ..util import bind_args
+    fa_ = ctx.pkg.funcs.get("transport.usb_transport.UsbTransport.find_adb")
+    fparams = [p for p in (fa_.params[1:] if fa_ is not None else ["serial", "port_path", "default_transport_timeout_s"])]
     for n, c in finds:
-        args = [T.term(f, n, a) for a in c.args]
-        R.check(args == [("p", "serial"), ("p", "port_path"), ("p", "default_transport_timeout_s")] and not c.keywords, "USB-device", f.qualname + "|forward", "serial, port_path and the default timeout are forwarded",
-                "find_adb receives %s" % [show(a) for a in args], f.loc(n.ast))
+        bnd = bind_args(c, fparams) or {}
+        args = [T.term(f, n, bnd[p]) if p in bnd else None for p in ("serial", "port_path", "default_transport_timeout_s")]
+        R.check(args == [("p", "serial"), ("p", "port_path"), ("p", "default_transport_timeout_s")], "USB-device", f.qualname + "|forward", "serial, port_path and the default timeout are forwarded",
+                "find_adb receives %s" % [show(a) if a else "?" for a in args], f.loc(n.ast))
     sup = [(n, c) for n in g.live_nodes() for c in node_calls(n) if call_attr(c) == "__init__"]
     R.check(len(sup) == 1 and g.dominates([sup[0][0]], g.exit, exc=False) if sup else False, "USB-device", f.qualname + "|super-call", "the device is initialised with the transport found, on every path",
             "AdbDeviceUsb.__init__ does not call AdbDevice.__init__ exactly once on every path", f.loc())
+    base_init = ctx.pkg.funcs.get("adb_device.AdbDevice.__init__")
+    bparams = base_init.params[1:] if base_init is not None else ["transport", "default_transport_timeout_s", "banner"]
     for n, c in sup:
-        args = [T.term(f, n, a) for a in c.args]
-        a0 = unawait(c.args[0]) if c.args else None
+        bnd = bind_args(c, bparams) or {}
+        a0 = unawait(bnd["transport"]) if "transport" in bnd else None
         d0 = ctx.df(f).unique_def(n, a0.id) if isinstance(a0, ast.Name) else None
-        from_find = d0 is not None and d0.kind == "assign" and finds and unawait(d0.value) is finds[0][1]
-        ok = len(args) == 3 and from_find and args[1:] == [("p", "default_transport_timeout_s"), ("p", "banner")]
-        R.check(ok, "USB-device", f.qualname + "|super", "the transport found, the default timeout and the banner go to AdbDevice", "AdbDevice.__init__ receives %s" % [show(a) for a in args], f.loc(n.ast))
+        from_find = (d0 is not None and d0.kind == "assign" and finds and unawait(d0.value) is finds[0][1]) or (a0 is not None and finds and a0 is finds[0][1])
+        rest = [T.term(f, n, bnd[p]) if p in bnd else None for p in ("default_transport_timeout_s", "banner")]
+        ok = bool(from_find) and rest == [("p", "default_transport_timeout_s"), ("p", "banner")]
+        R.check(ok, "USB-device", f.qualname + "|super", "the transport found, the default timeout and the banner go to AdbDevice", "AdbDevice.__init__ receives %s" % [src(v) for v in bnd.values()], f.loc(n.ast))
